@@ -228,9 +228,10 @@ class StubsStringGenerator:
         if class_.constructor:
             constructor_type_vars = class_.constructor.type_var_types
 
+        # The generics of a previously rendered class must not hide the type variables of this class's methods
+        self.class_generics = []
         if class_.type_parameters or constructor_type_vars:
             # We collect the class generics for the methods later
-            self.class_generics = []
             for variance in class_.type_parameters:
                 variance_direction = {
                     VarianceKind.INVARIANT.name: "",
